@@ -54,3 +54,11 @@ for sid in ids:
 
 # regen after restore: the Gen files and the driver must describe the unchanged tree again
 subprocess.call("%s/go/bin/go2lean -repo %s -out %s/lean/MocModel/Gen -pin %s/go/go2lean/pinned.json -report /tmp/genrep.json >/dev/null 2>&1" % (V, REPO, V, V), shell=True)
+
+# go.mod back to the default tree (./check rewrites the replace directive on every run; do not leave a scratch path behind)
+gm = os.path.join(V, "go", "go.mod")
+t = open(gm).read()
+import re
+t2 = re.sub(r"(replace github.com/high-moctane/mocrelay => )\S+", r"\1/repo", t)
+if t2 != t:
+    open(gm, "w").write(t2)
